@@ -179,6 +179,86 @@ Proof.
     + exact (si_excl _ I z w s Hz Hw Hzs Hws).
 Qed.
 
+(* ---- no stale reference: a result list that nothing refers to any more is never referred to again (the slots of the
+   store are handed out once, in order; arglist.c frees a list when its reference count drops to zero) ---- *)
+Definition referenced (st : daemon) (s : nat) : Prop :=
+  (exists x, In x (dm_clients st) /\ cmd_slot x = Some s) \/ (exists c, In (c, s) (aslots (dm_devs st))).
+Definition Ref_mono (st st' : daemon) : Prop :=
+  (length (dm_store st) <= length (dm_store st'))%nat /\
+  forall s, referenced st' s -> referenced st s \/ (length (dm_store st) <= s)%nat.
+
+Lemma Ref_mono_refl st : Ref_mono st st.
+Proof. split; [lia|auto]. Qed.
+Lemma Ref_mono_trans a b c : Ref_mono a b -> Ref_mono b c -> Ref_mono a c.
+Proof.
+  intros [L1 H1] [L2 H2]. split; [lia|]. intros s Hs. destruct (H2 s Hs) as [Hb|Hb]; [|right; lia].
+  destruct (H1 s Hb) as [Ha|Ha]; [now left|right; exact Ha].
+Qed.
+(* only the three fields matter *)
+Lemma Ref_mono_eq st st' st'' : dm_devs st'' = dm_devs st' -> dm_clients st'' = dm_clients st' -> dm_store st'' = dm_store st' ->
+  Ref_mono st st' -> Ref_mono st st''.
+Proof. intros A B C [L H]. unfold Ref_mono, referenced in *. rewrite A, B, C. auto. Qed.
+
+Lemma Ref_mono_clients st st' :
+  dm_devs st' = dm_devs st -> dm_store st' = dm_store st ->
+  (forall y, In y (dm_clients st') -> cmd_slot y = None \/ exists x, In x (dm_clients st) /\ cmd_slot x = cmd_slot y) ->
+  Ref_mono st st'.
+Proof.
+  intros A C H. split; [rewrite C; lia|]. intros s [(y & Hy & Hs)|(c & Hc)]; left.
+  - destruct (H y Hy) as [Hn|(x & Hx & E)]; [congruence|]. left. exists x. split; [exact Hx|congruence].
+  - right. exists c. now rewrite <- A.
+Qed.
+
+Lemma Ref_mono_upd_client st i x y :
+  nth_error (dm_clients st) i = Some x -> cmd_slot y = cmd_slot x ->
+  Ref_mono st (mkDaemon (dm_nodes st) (dm_aliases st) (dm_specs st) (dm_pipe st) (dm_devs st) (upd_nth (dm_clients st) i (fun _ => y))
+                        (dm_seq st) (dm_store st) (dm_version st) (dm_tel st)).
+Proof.
+  intros En Hs. apply Ref_mono_clients; try reflexivity. cbn [dm_clients]. intros z Hz. right.
+  apply In_upd_nth in Hz as [->|Hz]; [exists x; split; [eapply nth_error_In; exact En|now symmetry]|exists z; auto].
+Qed.
+Lemma Ref_mono_remove st i :
+  Ref_mono st (mkDaemon (dm_nodes st) (dm_aliases st) (dm_specs st) (dm_pipe st) (dm_devs st) (remove_nth (dm_clients st) i)
+                        (dm_seq st) (dm_store st) (dm_version st) (dm_tel st)).
+Proof.
+  apply Ref_mono_clients; try reflexivity. cbn [dm_clients]. intros z Hz. right. exists z. split; [exact (incl_remove_nth_cli _ _ _ Hz)|reflexivity].
+Qed.
+Lemma Ref_mono_accept st y seq' : cmd_slot y = None ->
+  Ref_mono st (mkDaemon (dm_nodes st) (dm_aliases st) (dm_specs st) (dm_pipe st) (dm_devs st) (dm_clients st ++ [y])
+                        seq' (dm_store st) (dm_version st) (dm_tel st)).
+Proof.
+  intros Hn. apply Ref_mono_clients; try reflexivity. cbn [dm_clients]. intros z Hz.
+  apply in_app_or in Hz as [Hz|[<-|[]]]; [right; exists z; auto|now left].
+Qed.
+Lemma Ref_mono_enqueue st i x y devs' al nodes seq :
+  nth_error (dm_clients st) i = Some x -> cmd_slot y = Some (length (dm_store st)) ->
+  incl (aslots devs') ((cid x, length (dm_store st)) :: aslots (dm_devs st)) ->
+  Ref_mono st (mkDaemon nodes (dm_aliases st) (dm_specs st) (dm_pipe st) devs' (upd_nth (dm_clients st) i (fun _ => y))
+                        seq (dm_store st ++ [al]) (dm_version st) (dm_tel st)).
+Proof.
+  intros En Hy Hin. split; [cbn [dm_store]; rewrite app_length; lia|].
+  cbn [dm_store dm_clients dm_devs]. intros s [(z & Hz & Hs)|(c & Hc)].
+  - apply In_upd_nth in Hz as [->|Hz]; [right; rewrite Hy in Hs; inversion Hs; lia|left; left; exists z; auto].
+  - apply Hin in Hc. destruct Hc as [E|Hc]; [inversion E; right; lia|left; right; exists c; exact Hc].
+Qed.
+Lemma Ref_mono_dev_step st st' i d d' :
+  nth_error (dm_devs st) i = Some d -> SlotRel d (dm_store st) d' (dm_store st') ->
+  dm_devs st' = upd_nth (dm_devs st) i (fun _ => d') ->
+  length (dm_clients st') = length (dm_clients st) ->
+  (forall p x, nth_error (dm_clients st) p = Some x ->
+     exists x', nth_error (dm_clients st') p = Some x' /\ cid x' = cid x /\ (cmd_slot x' = cmd_slot x \/ cmd_slot x' = None)) ->
+  Ref_mono st st'.
+Proof.
+  intros En R Hd Hl Hc. split; [rewrite (sr_len _ _ _ _ R); lia|].
+  intros s [(y & Hy & Hs)|(c & Hin)]; left.
+  - apply In_nth_error in Hy as (p & Hp).
+    assert (Hlt : (p < length (dm_clients st))%nat) by (rewrite <- Hl; apply nth_error_Some; congruence).
+    destruct (nth_error (dm_clients st) p) as [x|] eqn:Ex; [|apply nth_error_None in Ex; lia].
+    destruct (Hc p x Ex) as (x' & Hp' & _ & [E|E]); rewrite Hp in Hp'; inversion Hp'; subst x'; [|congruence].
+    left. exists x. split; [eapply nth_error_In; exact Ex|congruence].
+  - right. exists c. rewrite Hd in Hin. exact (aslots_upd _ _ _ _ En (sr_incl _ _ _ _ R) _ Hin).
+Qed.
+
 Section S.
   Variable expand_str : text -> option (list text).
   Variable ranged_sorted : list text -> text.
